@@ -37,6 +37,7 @@ Crits ==
 
 Rates ==
   CASE RateSel = "all"   -> {RateEmpty, RateZero, Rate(1, 20), Rate(1, 2), Rate(1, 1), Rate(3, 2)}
+    [] RateSel = "exh"   -> {RateEmpty, RateZero, Rate(1, 2), Rate(3, 2)}
     [] RateSel = "some"  -> {RateEmpty, Rate(1, 10), Rate(1, 2)}
     [] RateSel = "valid" -> {RateEmpty, Rate(1, 20), Rate(1, 2), Rate(1, 1)}
     [] OTHER             -> {RateEmpty}
@@ -131,6 +132,12 @@ FeeGenesis ==
      !.basketfee = SomeCoin("uregen", 3),
      !.denoms    = @ \cup {[bank |-> "uatom", display |-> "atom", exp |-> 6]}]
 
+\* genesis validation accepts a zero-amount fee coin
+ZeroFeeGenesis ==
+  [BatchGenesis EXCEPT
+     !.classfee  = SomeCoin("uregen", 0),
+     !.basketfee = SomeCoin("uregen", 0)]
+
 GenesisState ==
   CASE Genesis = "default" -> DefaultGenesis
     [] Genesis = "class"   -> ClassGenesis
@@ -140,6 +147,7 @@ GenesisState ==
     [] Genesis = "basket2" -> Basket2Genesis
     [] Genesis = "bridge"  -> BridgeGenesis
     [] Genesis = "fee"     -> FeeGenesis
+    [] Genesis = "zerofee" -> ZeroFeeGenesis
 
 \* ------------------------------------------------------------------ message domains
 BatchDenoms(s) == {b.denom : b \in s.batches} \cup {"C09-001-19700315-19700527-001"}
@@ -150,6 +158,7 @@ BasketDenoms(s) == {k.denom : k \in s.baskets} \cup {"eco.uC.XXX"}
 OrderIds(s)     == 1..MaxOrders
 OptExp(s)       == {NoTime} \cup {SomeTime(t) : t \in ExpTicks}
 
+Refs == IF MaxList = 1 /\ Cardinality(Users) < 3 THEN {"r1"} ELSE {"r1", "r2"}
 OfferedFees == {NoCoin} \cup {SomeCoin(d, n) : d \in FeeDenomsOffered, n \in CoinAmts}
 
 Issuance == {[to |-> u, t |-> t, r |-> r] : u \in Users, t \in Amts, r \in Amts}
@@ -242,7 +251,7 @@ Msgs(s, T) ==
          {[type |-> T, issuer |-> a, class_id |-> c, ref |-> rf, pjur |-> "US", pmeta |-> "m0",
            to |-> u, amt |-> n, start |-> 7, end |-> 8, bmeta |-> "m0",
            origin |-> [set |-> TRUE, id |-> x, src |-> src, contract |-> k]]
-            : a \in Users, c \in ClassIds(s), rf \in {"r1", "r2"}, u \in Users, n \in Amts \ {0},
+            : a \in Users, c \in ClassIds(s), rf \in Refs, u \in Users, n \in Amts \ {0},
               x \in OriginIds, src \in Chains, k \in {"k1", "k2"}}
     [] T = "CreateBatchO" ->   \* CreateBatch with an origin tx (bridge family)
          IF Cardinality(s.batches) >= MaxBatches THEN {} ELSE
